@@ -464,5 +464,10 @@ pub mod gs {
             if f < files(g0).len() { assert(files(g1)[f] == files(g0)[f]); }
         }
     }
+
+    /// existing files keep their names (ids keep denoting the same path); new files may be added
+    pub open spec fn names_ext(of: Seq<File>, nf: Seq<File>) -> bool {
+        nf.len() >= of.len() && forall|f: int| 0 <= f < of.len() ==> (#[trigger] nf[f]).name == of[f].name
+    }
     }
 }
